@@ -299,3 +299,31 @@ Section Sound.
     - rewrite Hv. exact Hle.
   Qed.
 End Sound.
+
+(* ---------------------------------------------------------------- decidable hypotheses *)
+
+Lemma no_window_collision_b_sound : forall weights h16 mine peer,
+  no_window_collision_b weights h16 mine peer = true -> NoWindowCollision weights h16 mine peer.
+Proof.
+  intros weights h16 mine peer H. unfold NoWindowCollision. cbv zeta.
+  intros i a hm Hin Hl. unfold no_window_collision_b in H.
+  rewrite forallb_forall in H. specialize (H (i, a) Hin). cbn [fst snd] in H. rewrite Hl in H.
+  destruct (nth (N.to_nat i) (gen_src (lc_at peer) weights (rnd10 (tip_id peer))) None) as [hp|].
+  - intro Hne. apply orb_true_iff in H. destruct H as [H|H].
+    + apply N.eqb_eq in H. contradiction.
+    + apply negb_true_iff in H. apply N.eqb_neq in H. exact H.
+  - apply negb_true_iff in H. apply N.eqb_neq in H. exact H.
+Qed.
+
+Lemma lc_at_In_fst : forall c id h, lc_at c id = Some h -> In (id, h) c.
+Proof. exact lc_at_In. Qed.
+
+Lemma hash_determines_id_b_sound : forall mine peer,
+  hash_determines_id_b mine peer = true -> HashDeterminesId mine peer.
+Proof.
+  intros mine peer H a b h Hm Hp. unfold hash_determines_id_b in H.
+  rewrite forallb_forall in H. specialize (H (a, h) (lc_at_In _ _ _ Hm)).
+  rewrite forallb_forall in H. specialize (H (b, h) (lc_at_In _ _ _ Hp)).
+  cbn [fst snd] in H. rewrite N.eqb_refl in H. cbn [negb orb] in H.
+  apply N.eqb_eq in H. exact H.
+Qed.
